@@ -823,6 +823,8 @@ def _extract_fn(src, first, o, c, impl_info, rules, sections, opts, entry, repor
     if attrs:
         out = '\n'.join(attrs) + '\n' + out
     entry['loops'] = len(loops)
+    if 'sig' in sec:
+        entry['contract'] = re.sub(r'\s+', ' ', sec['sig']).strip()[:900]
     _finish(entry, src, s, e, piece, report)
     entry['_consts_used'] = sorted({t.text for t in ftoks if t.kind == 'ident' and re.fullmatch(r'[A-Z][A-Z0-9_]{2,}', t.text)})
     entry['_src'] = src
